@@ -13,8 +13,9 @@ from concurrent.futures import ThreadPoolExecutor
 VERIF = os.path.dirname(os.path.dirname(os.path.abspath(__file__)))
 SPEC = os.path.join(VERIF, "spec")
 HARNESS_SRC = os.path.join(VERIF, "harness")
-BUILD = os.path.join(VERIF, ".build")
 REPO = os.environ.get("VERIF_REPO", "/repo")
+# build output per repository path, so that checks of two trees never share a binary
+BUILD = os.path.join(VERIF, ".build") if REPO == "/repo" else os.path.join(VERIF, ".build", "alt_" + REPO.strip("/").replace("/", "_"))
 TLA_CP = "/opt/veriftools/tla/tla2tools.jar:/opt/veriftools/tla/CommunityModules-deps.jar"
 NCPU = min(16, os.cpu_count() or 4)
 
